@@ -5,4 +5,5 @@ CONSTANTS
   AsCoded = TRUE
   Crashes = FALSE
   Batched = TRUE
+  Recheck = TRUE
 INVARIANTS TypeOK InvLinked InvCountIsLength InvIndexExact InvById InvHeights InvRecords
